@@ -29,9 +29,11 @@ theorem nodupB_of_nodup {l : List Int} (h : l.Nodup) : nodupB l = true := by
   simp [nodupB, eraseDups_of_nodup h]
 
 theorem idsOk_of {α : Type} {t : Table α} {seq : Int} (hn : (ids t).Nodup) (hpos : ∀ r ∈ t, 0 < r.id)
-    (hseq : ∀ i ∈ ids t, i ≤ seq) : idsOk t seq = true := by
+    (hseq : ∀ i ∈ ids t, i ≤ seq) (hs0 : 0 ≤ seq) : idsOk t seq = true := by
   unfold idsOk
-  rw [nodupB_of_nodup hn, Bool.true_and, List.all_eq_true]
+  rw [nodupB_of_nodup hn, Bool.true_and, Bool.and_eq_true, decide_eq_true_eq]
+  refine ⟨?_, hs0⟩
+  rw [List.all_eq_true]
   intro i hi
   have h1 := hseq i hi
   simp only [ids, List.mem_map] at hi
@@ -72,8 +74,8 @@ theorem chainsOk_of_R {α : Type} {A : Int → List Int} {t : Table α} (h : R A
 theorem wfChains_of_chInv {S : Ord} {d : Db} (hI : ChInv S d) : wfChains d = true := by
   unfold wfChains chainChecks
   simp only [List.all_cons, List.all_nil, Bool.and_true, Bool.and_eq_true]
-  exact ⟨idsOk_of hI.rk.ids_nodup hI.rk.id_pos hI.plSeq, chainsOk_of_R hI.rk,
-    idsOk_of hI.re.ids_nodup hI.re.id_pos hI.peSeq, chainsOk_of_R hI.re⟩
+  exact ⟨idsOk_of hI.rk.ids_nodup hI.rk.id_pos hI.plSeq hI.plSeq0, chainsOk_of_R hI.rk,
+    idsOk_of hI.re.ids_nodup hI.re.id_pos hI.peSeq hI.peSeq0, chainsOk_of_R hI.re⟩
 
 /-! ### the parent relation reaches a root within `length` steps -/
 
@@ -165,7 +167,9 @@ theorem entitiesOk_of_memInv {d : Db} (hM : MemInv d) (hp : PairsOk (cores d.pe)
 
 theorem tracksOk_of_memInv {d : Db} (hM : MemInv d) : tracksOk d = true := by
   unfold tracksOk
-  rw [nodupB_of_nodup hM.tracks_nodup, Bool.true_and, List.all_eq_true]
+  rw [nodupB_of_nodup hM.tracks_nodup, Bool.true_and, Bool.and_eq_true, decide_eq_true_eq]
+  refine ⟨?_, hM.trSeq0⟩
+  rw [List.all_eq_true]
   intro t ht
   have := hM.tracks_seq t ht
   simp [this.1, this.2]
